@@ -228,3 +228,5 @@ def _resume(ctx):
                            "the flag commit and the deletion, the re-sent %s returns early "
                            "and the rows stay until they expire" % (flag, show(bad)[:60], cmd))
     ctx.require("R10.resume", n, 2, "retirement deletes on close/release paths")
+
+EXPLANATION += ' Batch 6: the sweep enumerates the applications from the database and visits each (R10.apps = R13.apps); emptiness guards of subscripts are read with their polarity.'
